@@ -306,6 +306,16 @@ def run(ctx):
     ctx.check(not probs and loop_paths, 'C07.6', 'enum:entry-iff', f_lue.loc(),
               'an entry is reported iff it equals the value (plain enum) or shares a bit with it (bitfield)',
               'entry reported=%s in scenario %s' % ((probs[0][2], probs[0][1]) if probs else ('', '')))
+    epaths2 = paths_of(repo, f_lue, unroll=2)
+    early = [p for p in epaths2 if any(e.kind == 'loop-break' for e in p.events) or any(e.kind == 'return' and e.loops for e in p.events)]
+    ctx.check(not early, 'C07.6', 'enum:every-entry-consulted', f_lue.loc(), 'the scan over the enum\'s entries is never left early: every entry is compared with the value',
+              'the scan over the entries can stop early (%s): later entries that also match (overlapping bitfield entries, alias values) are dropped' % (early[0].describe()[:160] if early else ''))
+    # each iteration's decision is about that iteration's own entry
+    for p in epaths2:
+        for k in (0, 1):
+            apps_k = [e for e in p.events if e.kind == 'call' and e.ftext and e.ftext.endswith('.append') and e.loops and e.loops[-1][1] == k]
+            for e in apps_k:
+                ctx.check(bool(re.match(r'^<elem%d of ' % k, e.argtext(0) or '')), 'C07.6', 'enum:label-of-own-entry', f_lue.loc(e.node), 'iteration %d reports its own entry' % k)
     nfb = 0
     for p in epaths:
         if p.outcome[0] != 'return':
